@@ -2,3 +2,4 @@ import SsoModel.Breaker
 import SsoModel.Singleflight
 import SsoModel.SfWrappers
 import SsoModel.Caches
+import SsoModel.Validators
